@@ -222,6 +222,8 @@ _v("seq", [
     ("transform.py", "ExpressionFunctionCallIsolator.isolate_call", "for", "rec_result.parameters"),
     ("transform.py", "ExpressionFunctionCallIsolator.isolate_call", "tuple", "parameters"),
     ("transform.py", "apply_statement_rewriter", "list", "get_statements_in_ast(phase_ast)"),
+    # added by the repair of C07 (1d209b1): `children` is a tuple, the result a set union
+    ("transform.py", "get_node_variables", "for", "children"),
     ("transform.py", "flat_LogicalAnd", "extend", "child.children"),
     ("transform.py", "flat_LogicalAnd", "for", "children"),
     ("transform.py", "flat_LogicalAnd", "tuple", "result"),
